@@ -2,7 +2,7 @@
 from . import gen, run
 from .props import cnt, net_props, worlds, thorough, ctx_spec, chunks
 
-NEEDS_BINS = {"C17", "C19"}
+NEEDS_BINS = {"C16", "C17", "C19"}
 
 
 def add_shell(chk, kind, fields, tag="", meta=None):
@@ -85,8 +85,37 @@ def gen_C20_big(chk):
                   meta={"net": nm})
 
 
+def gen_C20_ext(chk):
+    """the slice relation for extended formulae: context sets that differ between colours (results
+    of formulae on the parametrised graph, random colour-dependent sets); the model / oracle get the
+    slices of the context sets"""
+    rng = chk.rng
+    ws = worlds(chk, n_random=cnt(chk, 6, 20))
+    for nm, net in ws:
+        props = net_props(net)
+        ctx = [("fp", "f" + gen.hx("!{x}: AX {x}")), ("att", "f" + gen.hx("!{x}: AG EF {x}")), ("d", ctx_spec(rng))]
+        fs = [gen.random_formula(rng, rng.randint(1, 6), props, max_vars=2, wilds=("att", "fp"), doms=("fp", "d"), w_hybrid=0.5)
+              for _ in range(cnt(chk, 5, 10))]
+        V = lambda v: gen.T("V", v)
+        att = gen.T("W", "att")
+        fs += [("H", "Exists", "x", "fp", att), ("H", "Exists", "x", "fp", ("B", "Or", att, ("U", "EF", V("x")))),
+               ("H", "Bind", "x", "fp", ("B", "Or", att, ("U", "EX", ("U", "Not", V("x"))))),
+               ("H", "Forall", "x", "d", ("B", "Or", gen.T("W", "fp"), ("H", "Jump", "x", None, ("U", "AX", V("x")))))]
+        fs = [f for f in fs if not gen.free_vars(f)]
+        k = max(1, max(gen.quant_depth(f) for f in fs))
+        if len(props) * (1 + k) > 10:
+            continue
+        add_shell(chk, "SLICE", [str(k), "A:" + gen.hx(net), ",".join(gen.hx(gen.render(f)) for f in fs),
+                                 str(32 if thorough(chk) else 12), ",".join("%s=%s" % (gen.hx(l), sp) for l, sp in ctx)],
+                  tag="slice-ext", meta={"net": net, "netname": nm, "k": k, "fs": fs})
+
+
 def judge_C20(chk):
     judge_shell(chk)
+    judge_slices(chk)
+
+
+def judge_slices(chk):
     for cid, case in list(chk.cases.items()):
         if case["kind"] != "SLICE":
             continue
@@ -156,6 +185,20 @@ def gen_C16(chk):
                                     ",".join(gen.hx(f) for f in formulas),
                                     ",".join(gen.hx(f) for f in usage)], tag="archive",
                       meta={"net": net, "labels": labels})
+
+
+def gen_C16_cli(chk):
+    """archives written by the command-line tool: one entry per line of the formula file, also when a
+    formula is repeated or repeated up to the names of its variables"""
+    rng = chk.rng
+    ws = worlds(chk, quick_names=["N05", "N06", "N09"], n_random=cnt(chk, 1, 4))
+    for nm, net in ws:
+        props = net_props(net)
+        f1 = gen.render(gen.random_formula(rng, rng.randint(1, 4), props, max_vars=1))
+        fs = ["!{x}: AG EF {x}", f1, "!{y}: AG EF {y}", f1, "EG %s" % props[0], "EF (%s & ~%s)" % (props[0], props[0])]
+        rng.shuffle(fs)
+        add_shell(chk, "CLI", ["aeon", gen.hx(net), gen.hx("\n".join(fs) + "\n"), "summary", "-"], tag="cli-repeated",
+                  meta={"net": net, "formulas": fs})
 
 
 def gen_C16_big(chk):
@@ -396,8 +439,8 @@ def runner(gens, judge):
 
 
 REGISTRY = {
-    "C16": runner([gen_C16, gen_C16_big, gen_shell_tie_C16], lambda c: (judge_shell(c), judge_model_tie(c))),
+    "C16": runner([gen_C16, gen_C16_cli, gen_C16_big, gen_shell_tie_C16], lambda c: (judge_shell(c), judge_model_tie(c))),
     "C17": runner([gen_C17, gen_shell_tie_C17], lambda c: (judge_shell(c), judge_model_tie(c))),
     "C19": runner([gen_C19, gen_shell_tie_C19], lambda c: (judge_shell(c), judge_model_tie(c))),
-    "C20": runner([gen_C20, gen_C20_big], judge_C20),
+    "C20": runner([gen_C20, gen_C20_ext, gen_C20_big], judge_C20),
 }
